@@ -24,6 +24,8 @@ here as an acceptor `Env` running next to the service:
 
 `envOk` is the precondition of a step, `envStep` the update (it needs the service's observation:
 an accepted `open` puts its command into the channel of the primary connection).
+`force_close` is always possible and does not change the environment: a connection that was told to close is
+still live (its substream events and, later, its close report still arrive) until its close is delivered.
 `Quiescent` = no outstanding command: every pending open future of every live task has completed.
 -/
 namespace Litep2pVerif.Service
@@ -54,6 +56,8 @@ def envOk (e : Env) : Op → Bool
   | .inner (.dialFailure _) => true
   | .open _ _ _ => true
   | .otherAlloc _ => true
+  | .forceClose _ _ _ => true       -- the protocol may call `force_close` at any time, with any channel state
+  | .managerCall => true
 
 def envStep (e : Env) (op : Op) (o : Obs) : Env :=
   match op, o with
